@@ -53,8 +53,8 @@ theorem mem_set_conn {cs : List Conn} {i : Nat} {c d : Conn} (h : d ∈ cs.set i
   · exact Or.inr h
   · exact Or.inl h
 
-theorem invA_init : InvA init := by
-  constructor <;> simp [init, cbs, alt, Phase.live, Phase.between]
+theorem invA_init (nc rc : Nat) : InvA (initWith nc rc) := by
+  constructor <;> simp [initWith, cbs, alt, Phase.live, Phase.between]
 
 /-- steps that neither log a callback nor touch exit flags: only the phase facts have to be re-established -/
 theorem InvA.of_same_cbs {s s' : St} (hi : InvA s) (hlog : cbs s'.log = cbs s.log) (hc : s'.cancelled = s.cancelled ∨ s'.cancelled = true)
@@ -84,20 +84,57 @@ theorem InvA.of_same_cbs {s s' : St} (hi : InvA s) (hlog : cbs s'.log = cbs s.lo
     · rw [hc]; exact h1
     · exact hc
 
+/-- exit flags after an update of the head connection that keeps its flag -/
+theorem InvA.exit_head {s : St} (hi : InvA s) {c c' : Conn} {rest : List Conn} (hc : s.conns = c :: rest)
+    (he : c'.exit = c.exit) : ∀ d ∈ c' :: rest, d.exit = true → s.cancelled = true := by
+  intro d hd hx
+  simp at hd
+  rcases hd with hd | hd
+  · subst hd; exact hi.exitFlag c (by simp [hc]) (by rw [← he]; exact hx)
+  · exact hi.exitFlag d (by simp [hc, hd]) hx
+
+/-- … of the connection at index `i` -/
+theorem InvA.exit_set {s : St} (hi : InvA s) {c c' : Conn} {i : Nat} (hc : s.conns[i]? = some c)
+    (he : c'.exit = c.exit) : ∀ d ∈ s.conns.set i c', d.exit = true → s.cancelled = true := by
+  intro d hd hx
+  rcases mem_set_conn hd with hd | hd
+  · subst hd; exact hi.exitFlag c (List.mem_of_getElem? hc) (by rw [← he]; exact hx)
+  · exact hi.exitFlag d hd hx
+
+theorem set_ne_nil {cs : List Conn} {i : Nat} {c : Conn} (h : cs ≠ []) : cs.set i c ≠ [] := by
+  intro hnil; apply h
+  have := congrArg List.length hnil; simp at this; exact this
+
+/-- a step that changes neither the phase, nor the callbacks, nor the cancel flag, nor any exit flag -/
+theorem InvA.frame {s s' : St} (hi : InvA s) (hp : s'.phase = s.phase) (hlog : cbs s'.log = cbs s.log)
+    (hc : s'.cancelled = s.cancelled) (hex : ∀ c ∈ s'.conns, c.exit = true → s.cancelled = true)
+    (hne : s.conns ≠ [] → s'.conns ≠ []) : InvA s' :=
+  hi.of_same_cbs hlog (Or.inl hc) (fun c h1 h2 => by rw [hc]; exact hex c h1 h2) (by rw [hp]; exact id) (by rw [hp]; exact id)
+    (by rw [hp]; exact id) (by rw [hp]; exact fun h => Or.inl h) (by rw [hp]; exact id)
+    (by rw [hp]; exact fun h => hne (hi.nonempty h))
+
 theorem invA_step (ae : Bool) (s s' : St) (l : Lbl) (hi : InvA s) (hs : step ae s l = some s') : InvA s' := by
   cases l with
   | cancel =>
     have := step_cancel hs; subst this
     exact hi.of_same_cbs rfl (Or.inr rfl) (fun _ _ _ => rfl) id id id (fun h => Or.inl h) id hi.nonempty
+  | offer => have := step_offer hs; subst this; exact hi.frame rfl rfl rfl hi.exitFlag id
+  | consumerStop => have := step_consumerStop hs; subst this; exact hi.frame rfl rfl rfl hi.exitFlag id
+  | consumerResume => have := step_consumerResume hs; subst this; exact hi.frame rfl rfl rfl hi.exitFlag id
+  | tick d => have := step_tick hs; subst this; exact hi.frame rfl rfl rfl hi.exitFlag id
   | dialFail =>
     obtain ⟨hp, rfl⟩ := step_dialFail hs
     exact hi.of_same_cbs rfl (Or.inl rfl) hi.exitFlag (by simp [Phase.live]) (by simp [hp, Phase.between])
       (by simp) (by simp) (by simp [hp]) (by simp [Phase.live])
   | noConnTimer =>
-    obtain ⟨hp, rfl⟩ := step_noConnTimer hs
+    obtain ⟨hp, _, rfl⟩ := step_noConnTimer hs
     exact hi.of_same_cbs rfl (Or.inl rfl) hi.exitFlag (by simp [Phase.live]) (by simp [hp, Phase.between])
       (by simp) (by simp) (by simp [hp]) (by simp [Phase.live])
-  | dialOk =>
+  | noConnDrain =>
+    obtain ⟨hp, _, rfl⟩ := step_noConnDrain hs
+    exact hi.of_same_cbs rfl (Or.inl rfl) hi.exitFlag (by simp [Phase.live]) (by simp [hp, Phase.between])
+      (by simp) (by simp) (by simp [hp]) (by simp [Phase.live])
+  | dialOk bin =>
     obtain ⟨hp, rfl⟩ := step_dialOk hs
     refine hi.of_same_cbs (by simp [cbs, Ev.isCb]) (Or.inl rfl) ?_ (by simp [Phase.live]) (by simp [hp, Phase.between])
       (by simp) (by simp) (by simp [hp]) (by simp)
@@ -108,61 +145,38 @@ theorem invA_step (ae : Bool) (s s' : St) (l : Lbl) (hi : InvA s) (hs : step ae 
     · exact hi.exitFlag c hc he
   | peerClose =>
     obtain ⟨c, rest, hc, _, rfl⟩ := step_peerClose hs
-    refine hi.of_same_cbs rfl (Or.inl rfl) ?_ id id id (fun h => Or.inl h) id (by simp)
-    intro d hd he
-    simp at hd
-    rcases hd with hd | hd
-    · subst hd; exact hi.exitFlag c (by simp [hc]) he
-    · exact hi.exitFlag d (by simp [hc, hd]) he
-  | frameComplete =>
-    obtain ⟨c, rest, hc, _, _, rfl⟩ := step_frameComplete hs
-    refine hi.of_same_cbs rfl (Or.inl rfl) ?_ id id id (fun h => Or.inl h) id (by simp)
-    intro d hd he
-    simp at hd
-    rcases hd with hd | hd
-    · subst hd; exact hi.exitFlag c (by simp [hc]) he
-    · exact hi.exitFlag d (by simp [hc, hd]) he
+    exact hi.frame rfl rfl rfl (hi.exit_head hc rfl) (by simp)
+  | byteArrive fin =>
+    obtain ⟨c, rest, hc, _, _, rfl⟩ := step_byteArrive hs
+    exact hi.frame rfl rfl rfl (hi.exit_head hc rfl) (by simp)
+  | takeFrame =>
+    obtain ⟨c, rest, hc, _, _, _, _, rfl⟩ := step_takeFrame hs
+    exact hi.frame rfl rfl rfl (hi.exit_head hc rfl) (by simp)
   | spawnWriter =>
     obtain ⟨c, rest, hc, hp, rfl⟩ := step_spawnWriter hs
-    refine hi.of_same_cbs rfl (Or.inl rfl) ?_ (by simp [Phase.live]) (by simp [hp, Phase.between]) (by simp) (by simp)
+    exact hi.of_same_cbs rfl (Or.inl rfl) (hi.exit_head hc rfl) (by simp [Phase.live]) (by simp [hp, Phase.between]) (by simp) (by simp)
       (by simp [hp]) (by simp)
-    intro d hd he
-    simp at hd
-    rcases hd with hd | hd
-    · subst hd; exact hi.exitFlag c (by simp [hc]) he
-    · exact hi.exitFlag d (by simp [hc, hd]) he
   | deliver =>
     obtain ⟨c, rest, hc, hp, _, _, rfl⟩ := step_deliver hs
-    refine hi.of_same_cbs (by simp [cbs, Ev.isCb]) (Or.inl rfl) ?_ id id id (fun h => Or.inl h) id (by simp)
-    intro d hd he
-    simp at hd
-    rcases hd with hd | hd
-    · subst hd; exact hi.exitFlag c (by simp [hc]) he
-    · exact hi.exitFlag d (by simp [hc, hd]) he
+    exact hi.frame rfl (by simp [cbs, Ev.isCb]) rfl (hi.exit_head hc rfl) (by simp)
   | readErr =>
-    obtain ⟨c, rest, hc, hp, _, rfl⟩ := step_readErr hs
+    obtain ⟨c, rest, hc, hp, _, _, rfl⟩ := step_readErr hs
     exact hi.of_same_cbs rfl (Or.inl rfl) hi.exitFlag (by simp [hp, Phase.live]) (by simp [Phase.between]) (by simp) (by simp)
       (by simp [hp]) (by simp [hc])
+  | readFault =>
+    obtain ⟨c, rest, hc, hp, _, _, _, _, _, rfl⟩ := step_readFault hs
+    exact hi.of_same_cbs rfl (Or.inl rfl) (hi.exit_head hc rfl) (by simp [hp, Phase.live]) (by simp [Phase.between]) (by simp) (by simp)
+      (by simp [hp]) (by simp)
   | closeQuit =>
     obtain ⟨c, rest, hc, hp, rfl⟩ := step_closeQuit hs
-    refine hi.of_same_cbs rfl (Or.inl rfl) ?_ (by simp [hp, Phase.live]) (by simp [Phase.between]) (by simp) (by simp)
+    exact hi.of_same_cbs rfl (Or.inl rfl) (hi.exit_head hc rfl) (by simp [hp, Phase.live]) (by simp [Phase.between]) (by simp) (by simp)
       (by simp [hp]) (by simp)
-    intro d hd he
-    simp at hd
-    rcases hd with hd | hd
-    · subst hd; exact hi.exitFlag c (by simp [hc]) he
-    · exact hi.exitFlag d (by simp [hc, hd]) he
   | connClose =>
     obtain ⟨c, rest, hc, hp, rfl⟩ := step_connClose hs
-    refine hi.of_same_cbs rfl (Or.inl rfl) ?_ (by simp [hp, Phase.live]) (by simp [Phase.between]) (by simp) (by simp)
+    exact hi.of_same_cbs rfl (Or.inl rfl) (hi.exit_head hc rfl) (by simp [hp, Phase.live]) (by simp [Phase.between]) (by simp) (by simp)
       (by simp [hp]) (by simp)
-    intro d hd he
-    simp at hd
-    rcases hd with hd | hd
-    · subst hd; exact hi.exitFlag c (by simp [hc]) he
-    · exact hi.exitFlag d (by simp [hc, hd]) he
   | sleepDone =>
-    obtain ⟨hp, rfl⟩ := step_sleepDone hs
+    obtain ⟨hp, _, rfl⟩ := step_sleepDone hs
     exact hi.of_same_cbs (by simp [cbs, Ev.isCb]) (Or.inl rfl) hi.exitFlag (by simp [Phase.live]) (by simp [hp, Phase.between])
       (by simp) (by simp) (by simp [hp]) (by simp [Phase.live])
   | ret =>
@@ -175,29 +189,22 @@ theorem invA_step (ae : Bool) (s s' : St) (l : Lbl) (hi : InvA s) (hs : step ae 
     · exact Or.inr (Or.inr (by simp [hp, Phase.between]))
   | writerStart i =>
     obtain ⟨c, hc, _, rfl⟩ := step_writerStart hs
-    refine hi.of_same_cbs rfl (Or.inl rfl) ?_ id id id (fun h => Or.inl h) id ?_
-    · intro d hd he
-      rcases mem_set_conn hd with hd | hd
-      · subst hd; exact hi.exitFlag c (List.mem_of_getElem? hc) he
-      · exact hi.exitFlag d hd he
-    · intro h hnil; apply hi.nonempty h
-      have := congrArg List.length hnil; simp at this; exact this
+    exact hi.frame rfl rfl rfl (hi.exit_set hc rfl) set_ne_nil
   | writerSeesQuit i =>
     obtain ⟨c, hc, _, _, rfl⟩ := step_writerSeesQuit hs
-    refine hi.of_same_cbs rfl (Or.inl rfl) ?_ id id id (fun h => Or.inl h) id ?_
-    · intro d hd he
-      rcases mem_set_conn hd with hd | hd
-      · subst hd; exact hi.exitFlag c (List.mem_of_getElem? hc) he
-      · exact hi.exitFlag d hd he
-    · intro h hnil; apply hi.nonempty h
-      have := congrArg List.length hnil; simp at this; exact this
+    exact hi.frame rfl rfl rfl (hi.exit_set hc rfl) set_ne_nil
+  | writerTake i =>
+    obtain ⟨c, hc, _, _, rfl⟩ := step_writerTake hs
+    exact hi.frame rfl rfl rfl (hi.exit_set hc rfl) set_ne_nil
+  | writeDone i =>
+    obtain ⟨c, hc, _, _, rfl⟩ := step_writeDone hs
+    exact hi.frame rfl rfl rfl (hi.exit_set hc rfl) set_ne_nil
+  | writeErr i =>
+    obtain ⟨c, hc, _, _, rfl⟩ := step_writeErr hs
+    exact hi.frame rfl rfl rfl (hi.exit_set hc rfl) set_ne_nil
   | writerSeesCancel i =>
     obtain ⟨c, hc, _, hcan, rfl⟩ := step_writerSeesCancel hs
-    refine hi.of_same_cbs rfl (Or.inl rfl) ?_ id id id (fun h => Or.inl h) id ?_
-    · intro d hd he
-      exact hcan
-    · intro h hnil; apply hi.nonempty h
-      have := congrArg List.length hnil; simp at this; exact this
+    exact hi.frame rfl rfl rfl (fun _ _ _ => hcan) set_ne_nil
   | onConnect =>
     obtain ⟨hp, rfl⟩ := step_onConnect hs
     have hb := hi.between (by simp [hp, Phase.between])
@@ -237,7 +244,7 @@ theorem invA_step (ae : Bool) (s s' : St) (l : Lbl) (hi : InvA s) (hs : step ae 
 
 theorem invA_reachable {ae : Bool} {s : St} (h : Reachable ae s) : InvA s := by
   induction h with
-  | init => exact invA_init
+  | init nc rc => exact invA_init nc rc
   | step l _ hs ih => exact invA_step ae _ _ l ih hs
 
 end RawPanelVerif.Lifecycle
